@@ -135,16 +135,24 @@ def run_history(setup, hist):
     for i in hist[:-1]:
         apply(setup, mem, ref, setup.ops[i])
     checks = []
-    before = canon(mem)
+    before = visible(setup, mem)
     op = setup.ops[hist[-1]]
     apply(setup, mem, ref, op, checks)
     cells = setup.cells(op[2], op[1])
     if cells is None or all(not setup.valid(x) for x in cells) or op[0] == "r":
         # an access lying entirely outside the valid range (and any read, and any unsupported access) changes nothing
-        if canon(mem) != before:
+        if visible(setup, mem) != before:
             checks.append(("state-changed", f"{opname(op)} changed the memory state although it "
                            + ("is a read" if op[0] == "r" else "lies entirely outside the valid range / is unsupported")))
     return mem, ref, checks
+
+
+def visible(setup, mem):
+    """The observable contents: the public per-cell table (lists every written cell, also cells holding 0)."""
+    try:
+        return mem.bytewise_repr() if setup.arch == "riscv" else mem.half_wordwise_repr()
+    except Exception as e:  # noqa
+        return ("table-raised", type(e).__name__)
 
 
 def expand(shard):
